@@ -45,6 +45,9 @@ pub struct GenCfg {
     pub risky_specials: bool,
     /// vary the layout (blank runs, newlines, redundant parentheses up to depth 100)
     pub layout_variants: bool,
+    /// user strings may contain backslashes, double quotes and tabs (C15 only: the pinned tree does
+    /// not escape them in the emitted program, which is another property's subject)
+    pub hostile_strings: bool,
     /// out of 4: how many tests are drawn from the "passes for most files" vocabulary (C16 wants
     /// records to be emitted; 0 = fully discriminating tests)
     pub likely_true: u64,
@@ -262,6 +265,39 @@ fn matcher_test(rng: &mut Rng, cfg: &GenCfg) -> String {
         if rng.chance(1, 3) {
             p = format!("a{p}*");
         }
+    }
+    if cfg.hostile_strings && rng.chance(1, 10) {
+        // backslashes, double quotes and control characters in a name (single-quoted): only for
+        // the property that compares programs as texts and never reads them
+        let specials: Vec<char> = "\\\"\t\\\"$ ".chars().collect();
+        let mut text = String::new();
+        for i in 0..rng.range(2, 4) {
+            if i > 0 {
+                for _ in 0..rng.range(1, 3) {
+                    text.push(*rng.pick(&specials));
+                }
+            }
+            text.push_str(NAME_STEMS[rng.usize_below(NAME_STEMS.len())]);
+        }
+        if rng.chance(1, 3) {
+            text.push(*rng.pick(&specials));
+        }
+        return format!("{which} '{text}'");
+    }
+    if rng.chance(1, 12) {
+        // a name with blanks and shell punctuation in it (quoted; no double quote and no backslash:
+        // how user text is escaped in the emitted program is another property's subject)
+        let specials: Vec<char> = " $;|&#!<>(){}~^@+=,:%'".chars().collect();
+        let mut text = String::new();
+        for i in 0..rng.range(2, 5) {
+            if i > 0 {
+                for _ in 0..rng.range(1, 2) {
+                    text.push(*rng.pick(&specials));
+                }
+            }
+            text.push_str(NAME_STEMS[rng.usize_below(NAME_STEMS.len())]);
+        }
+        return if text.contains('\'') { format!("{which} \"{text}\"") } else { format!("{which} '{text}'") };
     }
     match rng.below(6) {
         0 => format!("{which} '{p}'"),
